@@ -47,6 +47,11 @@ type c10Case struct {
 	// that does not hold its thread continues on another one. Without thread-sync exactly one thread may end up with the
 	// filter, and no other thread may have been given no_new_privs.
 	Unlocked bool `json:"unlocked,omitempty"`
+	// AllowOnly: the policy allows everything (default allow, one group with action allow): a valid filter like any other;
+	// whether a thread carries it is read from its Seccomp mode, the probes cannot tell
+	AllowOnly bool `json:"allow_only,omitempty"`
+	// HideSysctl: the process cannot see /proc/sys/kernel/seccomp (masked /proc/sys of a container)
+	HideSysctl bool `json:"hide_sysctl,omitempty"`
 	// GOARCH: build of the child ("" = amd64, 386)
 	GOARCH string `json:"goarch,omitempty"`
 	// EnosysFault: seccomp(2) fails with ENOSYS in the whole process (outer sandbox / old kernel).
@@ -86,6 +91,9 @@ func drawC10(t *rapid.T) c10Case {
 		c.Unlocked, c.Strace, c.NNP = true, false, true
 		c.GOMAXPROCS = []int{1, 1, 2}[rapid.IntRange(0, 2).Draw(t, "unlockedProcs")]
 	}
+	plain := !c.Divergent && !c.EnosysFault && !c.EinvalLog && !c.Unlocked
+	c.AllowOnly = plain && !c.LogGroup && rapid.IntRange(0, 5).Draw(t, "allowOnly") == 0
+	c.HideSysctl = plain && !c.Strace && c.Uid == 0 && rapid.IntRange(0, 5).Draw(t, "hideSysctl") == 0
 	var n int
 	switch k := rapid.IntRange(0, 9).Draw(t, "nClass"); {
 	case k < 4:
@@ -177,6 +185,12 @@ func checkC10(raw json.RawMessage) (ev.Result, error) {
 	if c.LogGroup {
 		pol.Groups = append(pol.Groups, spec.Group{Action: actLog, Names: []string{"getgid"}})
 	}
+	if c.AllowOnly {
+		if c.Divergent || c.EnosysFault || c.EinvalLog || c.Unlocked || c.LogGroup {
+			return ev.Result{}, ev.Inconclusivef("allow-only policies are combined with plain plans only")
+		}
+		pol.Groups = []spec.Group{{Action: actAllow, Names: []string{"getppid", "getuid"}}}
+	}
 	loadThread := 0
 	if c.Unlocked {
 		loadThread = -1
@@ -196,7 +210,7 @@ func checkC10(raw json.RawMessage) (ev.Result, error) {
 	if c.DelayUs > 0 && !c.Divergent && !c.EnosysFault && !c.EinvalLog {
 		job.Steps[2] = kjob.Step{Op: "sleep", N: c.DelayUs}
 	}
-	ro := kchild.RunOpts{Strace: c.Strace, Timeout: 45e9, Uid: c.Uid, GOARCH: c.GOARCH}
+	ro := kchild.RunOpts{Strace: c.Strace, Timeout: 45e9, Uid: c.Uid, GOARCH: c.GOARCH, HideSysctl: c.HideSysctl && !c.Strace && c.Uid == 0 && !c.Unlocked}
 	if c.Unlocked {
 		ro.Strace, ro.Inject, ro.Timeout = true, "prctl:delay_exit=200000", 90e9
 	}
@@ -311,6 +325,12 @@ func checkC10(raw json.RawMessage) (ev.Result, error) {
 		}
 		return false, ev.Inconclusivef("probe errno %d", r.Errno)
 	}
+	if c.AllowOnly {
+		res.Classes = append(res.Classes, "policy-that-allows-everything")
+	}
+	if c.HideSysctl && len(rr.Find(-1, "env")) > 0 {
+		res.Classes = append(res.Classes, "seccomp-sysctl-hidden")
+	}
 	statesSeen := map[string]bool{}
 	inSyscall := false
 	for _, r := range reports {
@@ -326,6 +346,9 @@ func checkC10(raw json.RawMessage) (ev.Result, error) {
 			return res, err
 		}
 		st := r.Status[0]
+		if c.AllowOnly {
+			d = st.Seccomp == 2 // nothing is denied by this policy: the mode tells
+		}
 		if tsync {
 			if !d || !modeOK(st.Seccomp, 2) {
 				return res, fmt.Errorf("thread-sync requested and LoadFilter returned nil, but thread %d (tid %d, state %q while the load ran, %d threads, GOMAXPROCS %d) is not filtered: Seccomp=%d, probe denied=%v",
@@ -353,6 +376,9 @@ func checkC10(raw json.RawMessage) (ev.Result, error) {
 		if err != nil {
 			return res, err
 		}
+		if c.AllowOnly {
+			d = r.Status[0].Seccomp == 2
+		}
 		if tsync && (!d || r.Status[0].Seccomp != 2) {
 			return res, fmt.Errorf("thread-sync requested, but a thread created after the load is not filtered: Seccomp=%d, probe denied=%v", r.Status[0].Seccomp, d)
 		}
@@ -377,8 +403,25 @@ func checkC10(raw json.RawMessage) (ev.Result, error) {
 				return res, fmt.Errorf("the filter was installed on thread %d, which does not carry the requested no_new_privs bit", s.Tid)
 			}
 		}
-		if !tsync && filtered != 1 {
-			return res, fmt.Errorf("thread-sync NOT requested and LoadFilter returned nil: %d threads are in filter mode, want exactly the installing one", filtered)
+		// (the installing thread may be gone by the time the states are read: once LoadFilter has returned, the goroutine no
+		// longer holds it, and one of the helper's own short-lived locked goroutines - state "spawner" - can take it to its
+		// grave. Exactly one filtered thread is demanded only while the thread that made the installing call still exists.)
+		installer, present := -1, false
+		for _, cap := range ld.Captures {
+			if cap.Op == 1 {
+				installer = cap.Tid
+			}
+		}
+		for _, s := range ld.Status {
+			if s.Tid == installer && !s.Gone {
+				present = true
+			}
+		}
+		if !tsync && (filtered > 1 || (present && filtered != 1)) {
+			return res, fmt.Errorf("thread-sync NOT requested and LoadFilter returned nil: %d threads are in filter mode, want exactly the installing one (thread %d)", filtered, installer)
+		}
+		if !present {
+			res.Classes = append(res.Classes, "installing-thread-gone-before-inspection")
 		}
 	}
 	if len(as) == 1 && !c.Unlocked {
@@ -393,7 +436,7 @@ func checkC10(raw json.RawMessage) (ev.Result, error) {
 	}
 	lp := rr.Find(7, "probe")
 	if len(lp) == 1 && len(lp[0].Results) == 1 && (!c.Unlocked || tsync) {
-		if d, _ := denied(lp[0].Results[0]); !d {
+		if d, _ := denied(lp[0].Results[0]); !d && !c.AllowOnly {
 			return res, fmt.Errorf("the loading thread is not subject to its own filter")
 		}
 	}
